@@ -918,6 +918,15 @@ def _orient_ifs(fn, rf, log, q):
                         blk[i + 1:]:
                     st.orelse = blk[i + 1:]
                     del blk[i + 1:]
+                    # a bare return that only ended the function early is
+                    # redundant once the rest lives in the else branch
+                    last = st.body[-1]
+                    if blk is fn.body and isinstance(last, ast.Return) and (
+                            last.value is None or (isinstance(
+                                last.value, ast.Constant) and
+                                last.value.value is None)) and \
+                            len(st.body) > 1 and not jump:
+                        st.body = st.body[:-1]
                     log.append('%s: guard `%s` restored to if/else' % (q, t))
                     changed = True
                     break
@@ -1635,11 +1644,18 @@ def _dissolve_built_locals(fn, rf, log, q):
                 continue
             k, fin = finals[0]
             tgt = fin.targets[0]
-            # X is not used after the final store, and only in this block
+            # X is used only in this block, from its definition on; T is not
+            # re-bound after the store (X and T stay the same object)
             uses = [n for n in _own_nodes(fn) if isinstance(n, ast.Name)
                     and n.id == x]
-            inside = {id(n) for s_ in blk[i:k + 1] for n in ast.walk(s_)}
+            inside = {id(n) for s_ in blk[i:] for n in ast.walk(s_)}
             if any(id(n) not in inside for n in uses):
+                continue
+            ttext = _n(tgt)
+            rebinds = [t_ for s_ in blk[i:] for a_ in ast.walk(s_)
+                       if isinstance(a_, ast.Assign) for t_ in a_.targets
+                       if t_ is not tgt and _n(t_) == ttext]
+            if rebinds:
                 continue
             # operands of T are not re-bound in between
             ops = _names(tgt)
@@ -1654,8 +1670,9 @@ def _dissolve_built_locals(fn, rf, log, q):
                         new.ctx = type(node.ctx)()
                         return ast.copy_location(new, node)
                     return node
-            for j in range(i, k):
-                blk[j] = RT().visit(blk[j])
+            for j in range(i, len(blk)):
+                if j != k:
+                    blk[j] = RT().visit(blk[j])
             del blk[k]
             log.append('%s: container built in local %s dissolved into %s'
                        % (q, x, _n(tgt)))
